@@ -37,8 +37,12 @@ MAX_ZERO_STEPS = 3000
 MAX_EVENTS_PER_INSTANT = 4000
 
 
-class Watchdog(Exception):
-    pass
+class Watchdog(BaseException):
+    """the harness' logical watchdog; a BaseException so that no `except Exception` can swallow or misread it"""
+
+
+class WallClock(BaseException):
+    """the wall-clock alarm (tooling-inconclusive, never a verdict)"""
 
 
 def gen_direct(parts, variant=None):
@@ -409,6 +413,11 @@ def _install():
                 known = {id(p): p for p in list(w.get_available_profiles()) + list(w.get_pending_profiles())}
                 res = ctx.resident.get(id(w), {})
                 ctx.count("profile_table_checks")
+                members = {tid for key, ent in res.items() if key[0] != "profile" for tid in ent["members"]}
+                for t in w.get_placed_tasks():
+                    if id(t) not in members:
+                        ctx.violate("C01", "task_listed_without_allocation",
+                                    f"worker {w.name} lists {t.unique_name} ({t.state.name}) as placed but no successful place_task() put it there")
                 for pid_, pr in known.items():
                     if ("profile", pid_) not in res:
                         ctx.violate("C01", "profile_resident_without_allocation",
@@ -733,7 +742,7 @@ def _shadow_invocations(ctx, sim_time, workload, worker_pools, policy, rng):
                         continue
                 ret = pol.schedule(sim_time, workload, worker_pools)
             except BaseException as e:  # noqa
-                if isinstance(e, (KeyboardInterrupt, Watchdog, TimeoutError)):
+                if isinstance(e, (KeyboardInterrupt, Watchdog, WallClock)):
                     raise
                 if (type(e).__name__ == "GurobiError" and "size-limited" in str(e)) or type(e).__name__ == "DOcplexLimitsExceeded":
                     ctx.count("shadow_tooling_limit")
@@ -895,7 +904,7 @@ def run_direct(world, wall_s=30, shadow=False, decision_hooks=()):
     t0 = _time.time()
 
     def alarm(signum, frame):
-        raise TimeoutError("wall-clock alarm")
+        raise WallClock("wall-clock alarm")
     old = signal.signal(signal.SIGALRM, alarm)
     signal.alarm(wall_s)
     _CTX = ctx
@@ -915,7 +924,7 @@ def run_direct(world, wall_s=30, shadow=False, decision_hooks=()):
     except Watchdog as e:
         status, exc = "watchdog", str(e)
         ctx.violate("C05", "livelock", str(e))
-    except TimeoutError:
+    except WallClock:
         status = "wallclock"
     except Exception as e:  # the simulator refusing a legal answer of the policy, or an internal error
         import traceback
